@@ -13,6 +13,7 @@ import (
 	"fmt"
 	"go/constant"
 	"go/token"
+	"go/types"
 	"sort"
 	"strings"
 
@@ -33,6 +34,11 @@ func (c descentClass) String() string {
 }
 
 func isElementPtr(v ssa.Value) bool { return typeIs(v.Type(), "github.com/beevik/etree", "Element") }
+
+func isElementList(v ssa.Value) bool {
+	sl, ok := v.Type().Underlying().(*types.Slice)
+	return ok && typeIs(sl.Elem(), "github.com/beevik/etree", "Element")
+}
 
 // descendingPath: an etree path that selects only strict descendants of the element it is applied to.
 func descendingPath(path string) bool {
@@ -161,6 +167,10 @@ func (d *descent) classify(fn *ssa.Function, v ssa.Value, env map[*ssa.Parameter
 				if i < len(x.Call.Args) && isElementPtr(prm) {
 					sub[prm] = d.classify(fn, x.Call.Args[i], env, depth+1, seen)
 				}
+				// a list of elements handed to the helper: the class of its members
+				if i < len(x.Call.Args) && isElementList(prm) {
+					sub[prm] = d.listClass(fn, x.Call.Args[i], env, depth+1, seen)
+				}
 			}
 			out := descNone
 			any := false
@@ -203,6 +213,11 @@ func (d *descent) note(what string, in ssa.Instruction) {
 
 // listClass: the class of the members of an element list.
 func (d *descent) listClass(fn *ssa.Function, list ssa.Value, env map[*ssa.Parameter]descentClass, depth int, seen map[ssa.Value]bool) descentClass {
+	if prm, ok := list.(*ssa.Parameter); ok && env != nil {
+		if c, ok := env[prm]; ok {
+			return c
+		}
+	}
 	c, ok := list.(*ssa.Call)
 	if !ok || c.Call.StaticCallee() == nil {
 		return descOther
